@@ -7,8 +7,10 @@
 # Prints one RESULT line per step. The scratch worktree is removed afterwards.
 SEED=$(readlink -f "$1"); shift
 export GOFLAGS=-mod=mod GOPROXY=off GOSUMDB=off GOTOOLCHAIN=local
-PROP=$(python3 -c "import json,sys;print(json.load(open('$SEED/meta.json'))['property'])")
-DEMO=$(python3 -c "import json,sys;print(json.load(open('$SEED/meta.json')).get('demo_test','TestSeed'))")
+PROP=$(python3 -c "import json,sys,os;p='$SEED/meta.json';p=p if os.path.exists(p) else '$SEED/meta.agent.json';print(json.load(open(p))['property'])")
+META=$SEED/meta.json; [ -f "$META" ] || META=$SEED/meta.agent.json
+DEMO=$(python3 -c "import json,sys;print(json.load(open('$META')).get('demo_test','TestSeed'))")
+RACE=$(python3 -c "import json,sys;print('-race' if json.load(open('$META')).get('demo_needs_race') else '')")
 CHECKS=${@:-$PROP}
 WT=$(mktemp -d /tmp/seedwt.XXXXXX)
 rmdir "$WT"
@@ -17,10 +19,10 @@ cleanup() { git -C /repo worktree remove --force "$WT" 2>/dev/null; git -C /repo
 trap cleanup EXIT
 cd "$WT"
 cp "$SEED/demo_test.go" test/zz_seed_demo_test.go
-timeout 300 go test -vet=off -count=1 ./test -run "^${DEMO}\$" > /tmp/seed.$$.clean 2>&1
+timeout 600 go test $RACE -vet=off -count=1 ./test -run "^${DEMO}\$" > /tmp/seed.$$.clean 2>&1
 echo "RESULT demo-without-change: exit=$? ($(grep -c '^--- PASS\|^ok' /tmp/seed.$$.clean) pass lines)"
 if ! git apply "$SEED/patch.diff"; then echo "RESULT patch: DOES NOT APPLY"; exit 1; fi
-timeout 300 go test -vet=off -count=1 ./test -run "^${DEMO}\$" > /tmp/seed.$$.mut 2>&1
+timeout 600 go test $RACE -vet=off -count=1 ./test -run "^${DEMO}\$" > /tmp/seed.$$.mut 2>&1
 echo "RESULT demo-with-change: exit=$? ($(tail -3 /tmp/seed.$$.mut | tr '\n' ' ' | cut -c1-200))"
 rm -f test/zz_seed_demo_test.go
 if [ -z "$SKIP_SUITE" ]; then
